@@ -260,6 +260,8 @@ def main():
             classes[k] = classes.get(k, 0) + v
         for k, v in rep["counters"].items():
             counters[k] = counters.get(k, 0) + v
+        if rep.get("kernel_eof_races_masked"):
+            counters["kernel_eof_races_masked_by_interposer"] = counters.get("kernel_eof_races_masked_by_interposer", 0) + rep["kernel_eof_races_masked"]
         for s in rep["samples"]:
             c = s.get("class")
             if (c, j["build"]) not in seen_sample_classes and len(samples) < 24:
